@@ -122,6 +122,7 @@ for w, rhs in [(8, "-200"), (8, "-1"), (8, "~200"), (8, "~0"), (4, "-8"), (4, "-
                (3, "K3 + K1"), (8, "K3 + K1"), (9, "KA + KA"), (8, "KA + KA"), (8, "s.in8 + (K3 + K1)"), (8, "s.in8 + (KI + 1)"), (8, "KB + 1"),
                (16, "s.clst[0 + 1]"), (8, "s.clst[0 + 1]"), (8, "s.clst[1]"), (16, "s.clst[1]"),
                (6, "s.in4a[s.in4b[0:2]:s.in4b[0:2] + 6]"), (2, "s.in4a[s.in4b[0:2]:s.in4b[0:2] + 2]"),
+               (7, "s.in5[s.in4a[0:3]:s.in4a[0:3] + 7]"), (3, "s.in5[s.in4a[0:3]:s.in4a[0:3] + 3]"), (5, "s.in5[s.in4a[0:3]:s.in4a[0:3] + 5]"),
                (2, "KN"), (3, "KN"), (8, "KN"), (7, "KM"), (8, "KM"), (8, "s.in8 & KN"),
                (6, "St10(300, 1)"), (6, "St10(s.in4a, 5)"), (6, "St10(3, s.in1)")]:
   RAW.append((f"const:o{w}<-{rhs}", w, ["{o} @= " + rhs]))
@@ -160,7 +161,7 @@ def component_src(items):
   """items: [(k, text, form)]"""
   out = [HEADER, "class C10( Component ):", "  def construct( s ):",
          "    s.in4a = InPort( Bits4 )", "    s.in4b = InPort( Bits4 )", "    s.in8 = InPort( Bits8 )", "    s.in1 = InPort( Bits1 )",
-         "    s.st = InPort( St10 )", "    s.lst = [ InPort( Bits4 ) for _ in range(2) ]", "    s.clst = [ Bits8(1), Bits8(2) ]"]
+         "    s.st = InPort( St10 )", "    s.lst = [ InPort( Bits4 ) for _ in range(2) ]", "    s.clst = [ Bits8(1), Bits8(2) ]", "    s.in5 = InPort( Bits5 )"]
   decls, blocks = [], []
   for k, text, form in items:
     d, b = block_src(k, text, form)
@@ -342,7 +343,7 @@ def check_chunk(items, acc):
       raised = None
       for inp in INPUTS:
         sim.in4a @= inp["in4a"]; sim.in4b @= inp["in4b"]; sim.in8 @= inp["in8"]; sim.in1 @= inp["in1"]
-        sim.st @= mod.St10(inp["sta"], 1); sim.lst[1] @= 6
+        sim.st @= mod.St10(inp["sta"], 1); sim.lst[1] @= 6; sim.in5 @= 21
         try: fn()
         except Exception as ex:
           if is_width_error(ex): raised = ex; break
@@ -350,6 +351,16 @@ def check_chunk(items, acc):
           raise MachineryError(f"unexpected {type(ex).__name__} executing {text}: {ex}")
       if rejected:
         continue
+      from pymtl3.passes.rtlir.behavioral import BehavioralRTLIR as _bir
+      for n, w, ex, role in nodes:
+        # a part select can never be wider than the signal it is taken from (the simulator raises IndexError for every index,
+        # so no runtime width exists to compare with)
+        if isinstance(n, _bir.Slice):
+          try: bw = n.value.Type.get_dtype().get_length()
+          except Exception: continue
+          if w > bw:
+            acc.violation(f"static-width-impossible:Slice:{fsig}", case, f"at most the {bw} bits of the sliced signal", f"{w} bits", f"`{text}`")
+            break
       if seen_w:
         idx, (kind, got) = sorted(seen_w.items())[0]
         n, w, ex, role = nodes[idx]
